@@ -52,6 +52,11 @@ Definition spec_ns (sep : Z) (q : str) : option str := before_sep sep q.
 Definition spec_local (sep : Z) (q : str) : str :=
   match after_sep sep q with Some l => l | None => q end.
 
+(* the separator must be a byte that can occur neither in a name nor in a namespace URI: not an XML
+   1.0 Char (#x9 | #xA | #xD | [#x20-...]) and not NUL (the names are C strings) *)
+Definition sep_not_xml_char (s : Z) : bool :=
+  (0 <? s) && (s <? 32) && negb (s =? 9) && negb (s =? 10) && negb (s =? 13).
+
 (* ------------------------------------------------------------------------------------ *)
 (* attributes of a stanza: a finite map.  As a list: one entry per distinct key, at the place of
    the key's first occurrence, carrying the value of its last occurrence.                 *)
@@ -77,9 +82,15 @@ Definition finmap_of (l : alist) : alist :=
 
 Definition xmlns_key : str := [120; 109; 108; 110; 115].    (* "xmlns" *)
 
-(* attribute names lose their namespace; the element's namespace becomes the attribute xmlns *)
+(* attribute names lose their namespace (libstrophe's data model has none for attributes); an
+   attribute that has no namespace is never shadowed by one that has; the element's namespace
+   becomes the attribute xmlns and shadows everything else of that name *)
+Definition qualified (sep : Z) (k : str) : bool :=
+  match before_sep sep k with Some _ => true | None => false end.
 Definition spec_attrs (sep : Z) (q : str) (attrs : alist) : alist :=
-  finmap_of (map (fun kv => (spec_local sep (fst kv), snd kv)) attrs ++
+  let strip := map (fun kv : str * str => (spec_local sep (fst kv), snd kv)) in
+  finmap_of (strip (filter (fun kv => qualified sep (fst kv)) attrs) ++
+             strip (filter (fun kv => negb (qualified sep (fst kv))) attrs) ++
              match spec_ns sep q with Some ns => [(xmlns_key, ns)] | None => [] end).
 
 (* ------------------------------------------------------------------------------------ *)
